@@ -244,6 +244,7 @@ def registryOf (st : St) (s : String) : Option (List (String × Shape)) :=
 
 def step (st : St) (line : String) : St × String :=
   match line.splitOn "|" with
+  | ["reset"] => ({}, "ok")
   | ["cls", cid, m, n, qn, k, imp, anc, fs] =>
     match strOf m, strOf n, strOf qn, kindOf k, parseBool? imp, listOf ";" strOf anc, listOf ";" fieldOf fs with
     | some md, some nm, some qname, some kd, some im, some an, some fl =>
